@@ -62,6 +62,7 @@ RECURSIVE ListOf(_, _)
 ListOf(ch, i) == IF i > Len(ch) THEN <<>>
                  ELSE IF ch[i][1] = "U" THEN ListOf(ch, i + 1)
                  ELSE IF ch[i][1] = "H" THEN <<[idx |-> i - 1, id |-> Pad(Zero, 32), omit |-> 1]>> \o ListOf(ch, i + 1)
+                 ELSE IF ch[i][1] = "HV" THEN <<[idx |-> i - 1, id |-> Pad(ch[i][2], 32), omit |-> 1]>> \o ListOf(ch, i + 1)     \* flagged omit AND carrying a value
                  ELSE <<[idx |-> i - 1, id |-> Pad(ch[i][2], 32), omit |-> 0]>> \o ListOf(ch, i + 1)
 AllLists(l, vs) == { ListOf(ch, 1) : ch \in [1..l -> SlotChoices(vs)] }
 Spec(L) == [k \in 1..Len(L) |-> [idx |-> L[k].idx, id |-> Norm(L[k].id), omit |-> L[k].omit]]
@@ -187,8 +188,11 @@ AdjLists == AllLists(L3, IF Tier = "quick" THEN { FromNat(9), FromNat(3) } ELSE 
 EncPreStepC(pre) == [a |-> "encryptpre", pre |-> pre, mu |-> Pad(Mu(10), 32), msg |-> Msg10, t |-> Pad(Rand(11), 32), stream |-> Stream(Rand(11))]
 AdjCh == [1..L3 -> SlotChoices(IF Tier = "quick" THEN { FromNat(9), FromNat(3) } ELSE { FromNat(9), FromNat(3), Sub(Pow2(256), One), Zero, Add(RMod, FromNat(3)) })]
 ParentChs == { <<<<"U">>, <<"U">>, <<"U">>>>, <<<<"V", FromNat(9)>>, <<"U">>, <<"U">>>>, <<<<"U">>, <<"H">>, <<"U">>>>, <<<<"H">>, <<"U">>, <<"V", FromNat(9)>>>> }
+\* lists for the precomputed product may carry the omitFromKeys flag together with a value (the flag concerns keys only)
+AdjChFlagged == [1..L3 -> {<<"U">>, <<"V", FromNat(9)>>, <<"HV", FromNat(3)>>, <<"HV", FromNat(9)>>}]
 AdjustDescs ==
   { <<"pre", NoCh, fr, to>> : fr \in AdjCh, to \in AdjCh }
+  \cup { <<"pre", NoCh, fr, to>> : fr \in AdjChFlagged, to \in AdjChFlagged }
   \cup UNION { LET P == P3(1)
                    Kp == W!NdKeyGen(P, Spec(ListOf(pc, 1)), 0)
                    ok == { ch \in [1..L3 -> SlotChoices({ FromNat(9), FromNat(3) } \cup FixedVals(Kp))] : W!PermittedQual(P, Kp, Spec(ListOf(ch, 1))) }
